@@ -11,10 +11,13 @@ Streams
             (0, 1, h-1 .. 2h+2), set_repr_rows 0..15, negative, None, untouched
   tbl       tables 0..13 columns wide (9..13 around the column budget), homogeneous /
             heterogeneous / "only a hidden column differs", global budget x per-table override
-  dots      the in-band marker: cells and names equal to the string '...'
-  hostile   NaN, +-inf, -0.0, 1e308, huge ints, '', strings with newlines, '...', None
-            everywhere, non-string names, lists/dicts/objects, nested vectors, very long, very
-            wide: checked for totality, purity and footer only (the body is not parsed)
+  dots      data that looks like the markers: cells and names equal to the string '...' (ordinary
+            rows and ordinary names: the markers of display.py are private objects), alone and
+            together (a column NAMED '...' holding cells '...')
+  hostile   NaN, +-inf, -0.0, 1e308, huge ints (also inside float columns), '', strings with
+            newlines, '...', None everywhere, non-string names, lists/dicts/objects, nested
+            vectors, very long, very wide: checked for totality, purity and footer only (the
+            body is not parsed)
 """
 import datetime as _dt
 import json
@@ -37,14 +40,28 @@ RULE = ("vectors/tables built from sentinel values (text identifies column and r
 EXHAUSTIVE = {"quick": False, "thorough": False}
 EXHAUSTIVE_NOTE = "limits x boundary lengths x dtypes are enumerated in the thorough tier; tables are sampled"
 ASSUMED = [
-    "str(), repr(), ==, isinstance on the element classes used do not raise (user classes with raising dunder "
-    "methods are outside the model); the list of partial primitives the model tracks is: bool(v == '...'), "
-    "int(v), format(v, '.1f'/'g'), v.isoformat(), str methods on names",
+    "str(), repr(), isinstance on the element classes used do not raise (user classes with raising dunder "
+    "methods, and ints of more than sys.get_int_max_str_digits() digits, are outside the model; for an element "
+    "that is itself a serif Vector str(v) is that vector's own repr, i.e. the same function on a smaller object); "
+    "the partial primitives the model tracks are: v != v / v in (inf, -inf) / int(v) / format(v, '.1f'/'g') in "
+    "float columns (format of an int converts it with float(v): OverflowError beyond the float range), "
+    "v.isoformat() in date columns, str methods on names; no primitive is applied to a value before its dtype "
+    "branch (the row-gap marker _ROW_GAP and the hidden-columns cell _HIDDEN are private objects compared by "
+    "identity, and are assumed not to be stored as data or names)",
+    "`name != \"\"` on a vector's stored name returns a plain bool (names that are themselves Vectors are outside "
+    "the model)",
     "distinct kinds print distinct __name__s (the header/footer logic compares dtype tokens as text)",
     "column alignment (str.ljust/rjust) and the dot-access row (.a_b, property C17) are not part of the structure",
 ]
-LEVEL_NOTE = ("totality is proved relative to the declared list of partial primitives; the nested-Vector element "
-              "is inside that list and refutes unconditional totality (NEW-C20-1)")
+LEVEL_TEXT = ("theorems (all vectors / tables, all budgets): purity, footer truthfulness, exact preview and headers "
+              "= stored names hold of the model of display.py with NO side condition on values or names (nested "
+              "Vector elements, cells equal to '...', columns named '...' included); totality holds for every "
+              "well-typed (C03), rectangular (C02) input in which no float column holds an int beyond the float "
+              "range, and is refuted without that condition (NEW-C20-3)")
+LEVEL_NOTE = ("totality is proved relative to the declared list of partial primitives; the one input family left "
+              "on which repr raises is an int beyond the float range inside a float column "
+              "(Vector([1.5, 10**400]): OverflowError from f\"{v:.1f}\"), which refutes unconditional totality "
+              "(C20_repr_total_statement_refuted, NEW-C20-3)")
 DESIGN_REF = "DESIGN.md §4 C20"
 
 MAX_HEAD_COLS = 5
@@ -191,7 +208,7 @@ def streams(rng, tier):
                 c[0] = None
         tbl.append({"k": "tbl", "cols": cols, "glob": glob, "override": override, "mode": "full"})
     out.append(("tbl", tbl))
-    # ---- the in-band marker
+    # ---- data and names that look like the markers: '...' is a cell / a name like any other
     dots = []
     D = ["s", "..."]
     for glob in ("keep", ["set", 2], ["set", 0]):
@@ -199,9 +216,12 @@ def streams(rng, tier):
                      [D] * 5, [["s", f"v0x{i}"] for i in range(6)] + [D] + [["s", f"v0x{i}"] for i in range(7, 14)]):
             for nm in (None, ["s", "na"]):
                 dots.append({"k": "vec", "vals": vals, "name": nm, "glob": glob, "mode": "full"})
-        # a vector NAMED '...' (its cells are sentinels: a quoted '...' header could not be told from a cell)
+        # a vector NAMED '...': over sentinel cells, and over cells '...' (in an object column the quoted
+        # header line and the quoted cell have the same text: the parser keeps both readings)
         for kind in ("int", "str", "object"):
             dots.append({"k": "vec", "vals": column(kind, 0, 4, "none"), "name": D, "glob": glob, "mode": "full"})
+        for vals in ([D, D, D], [D, ["i", 1], D], [["i", 1], D, ["i", 2], D, ["N"]]):
+            dots.append({"k": "vec", "vals": vals, "name": D, "glob": glob, "mode": "full"})
         for names in ([D], [D, ["s", "na"]], [["s", "na"], D], [D, D], [None, D], [D] + [["s", f"n{j}"] for j in range(11)],
                       [["s", f"n{j}"] for j in range(5)] + [D] * 2 + [["s", f"n{j}"] for j in range(5)], [D] * 12):
             cols = [[nm, column("int" if j % 2 else "str", j, 3, "none")] for j, nm in enumerate(names)]
@@ -216,7 +236,9 @@ def streams(rng, tier):
 
 HOSTILE_FLOAT = [["f", "nan"], ["f", "inf"], ["f", "-inf"], ["f", (-0.0).hex()], ["f", (1e308).hex()],
                  ["f", (5e-324).hex()], ["f", (1.5).hex()], ["f", (2.0).hex()], ["f", (1e22).hex()], ["F", "nan"],
-                 ["F", "inf"], ["i", 3], ["b", True], ["i", 10 ** 30], ["N"]]
+                 ["F", "inf"], ["i", 3], ["b", True], ["i", 10 ** 30], ["i", 2 ** 1023], ["N"]]
+# ints beyond the float range: float(v) raises OverflowError (a float column may hold them)
+HUGE_INTS = [["i", 10 ** 400], ["i", -(10 ** 400)], ["i", 2 ** 1024]]
 HOSTILE_INT = [["i", 10 ** 400], ["i", -(2 ** 70)], ["i", 0], ["b", False], ["IE", 2], ["I2", 5], ["N"]]
 HOSTILE_STR = [["s", ""], ["s", " "], ["s", "a\nb"], ["s", "\n"], ["s", "..."], ["s", "x" * 300], ["s", "None"],
                ["s", "'q'"], ["s", "a  b"], ["S", "..."], ["s", "\t"], ["s", "\u00e9\u200b"], ["N"]]
@@ -243,8 +265,16 @@ def hostile_cases(rng, n):
         {"k": "vec", "vals": [["V", [["i", 1], ["i", 2]]], ["V", [["i", 1], ["i", 2], ["i", 3]]]], "name": None},
         {"k": "vec", "vals": [["V", [["i", 1]]], ["i", 5]], "name": None},
         {"k": "vec", "vals": [["i", 5], ["V", [["i", 1]]]], "name": ["s", "na"]},
+        {"k": "vec", "vals": [["V", [["i", 1]]], ["s", "..."], ["V", [["s", "..."]]], ["N"]], "name": ["s", "..."]},
         {"k": "vec", "vals": [["f", "nan"]], "name": None},
         {"k": "vec", "vals": [["f", (1.5).hex()], ["f", "nan"]], "name": None},
+        {"k": "vec", "vals": [["f", (1.5).hex()], ["i", 10 ** 400]], "name": None},
+        {"k": "vec", "vals": [["i", -(10 ** 400)], ["f", (2.0).hex()], ["N"]], "name": ["s", "na"]},
+        {"k": "vec", "vals": [["i", 10 ** 400]], "name": None},
+        {"k": "tbl", "cols": [[["s", "a"], [["f", (1.5).hex()], ["i", 2 ** 1024]]], [["s", "b"], [["i", 1], ["i", 2]]]],
+         "override": "keep"},
+        {"k": "tbl", "cols": [[["s", "..."], [["i", 5], ["V", [["i", 1]]], ["s", "..."]]],
+                              [["s", "..."], [["s", "..."], ["s", "x"], ["s", "..."]]]], "override": "keep"},
         {"k": "vec", "vals": [["f", "inf"], ["f", "-inf"], ["N"]], "name": ["i", 1]},
         {"k": "vec", "vals": [["N"]] * 30, "name": None},
         {"k": "vec", "vals": [["i", i] for i in range(4000)], "name": ["s", "long"]},
@@ -268,7 +298,10 @@ def hostile_cases(rng, n):
         if rng.random() < 0.55:
             pool = rng.choice(HOSTILE_POOLS)
             ln = rng.choice([1, 1, 2, 3, 5, 12, 13, 14, 30])
-            cs.append({"k": "vec", "vals": [rng.choice(pool) for _ in range(ln)], "name": rng.choice(HOSTILE_NAMES),
+            vals = [rng.choice(pool) for _ in range(ln)]
+            if pool is HOSTILE_FLOAT and rng.random() < 0.08:      # a float column holding an int beyond the range
+                vals[rng.randrange(ln)] = rng.choice(HUGE_INTS)
+            cs.append({"k": "vec", "vals": vals, "name": rng.choice(HOSTILE_NAMES),
                        "glob": glob, "mode": "hostile"})
         else:
             w = rng.choice([1, 2, 3, 10, 11, 12, 25])
@@ -309,6 +342,9 @@ def observe(case):
         if is_tbl:
             cols = [Vector([_dec(x) for x in vals], name=None if nm is None else _dec(nm)) for nm, vals in case["cols"]]
             obj = Table(cols) if cols else Table()
+            # Vector([Vector, ...]) of equal lengths is itself a Table: a "column" that is a table makes the
+            # object a table of tables (a tensor), which is neither a vector nor a table of columns
+            out["tensor_cols"] = any(isinstance(c, Table) for c in cols)
             if case["override"] != "keep":
                 obj._repr_rows = case["override"][1]
             out["schema"] = [V.schema_obs(c.schema()) for c in obj.cols()]
@@ -400,6 +436,20 @@ def parse(case, obs):
     return p
 
 
+def reading(case, obs):
+    """the reading of the repr string that is judged: where the first line can be read both as the line of
+    names and as a data line (a column NAMED '...' over object cells '...': both print '...' in quotes),
+    parse() returns the likelier reading with the other one under "alt"; the string is held against the
+    property under the reading that satisfies it, if one does."""
+    p = parse(case, obs)
+    if "alt" in p:
+        if "pick" not in p:
+            p["pick"] = "alt" if (_judge(case, obs, p) is not None and _judge(case, obs, p["alt"]) is None) else "main"
+        if p["pick"] == "alt":
+            return p["alt"]
+    return p
+
+
 def _parse(case, obs):
     """-> dict; {"bad": why} when the string has no recognisable shape."""
     s = obs["repr"]
@@ -423,18 +473,33 @@ def _parse(case, obs):
         for i, v in enumerate(vals):
             for f, text in renderings(v).items():
                 rend.setdefault(text, []).append((0, i, f))
-        p["hdr"] = False
-        if toks and case["name"] is not None and toks[0] in _nameset(case["name"]) and toks[0] not in rend \
-                and toks[0] != "...":
-            p["hdr"] = True
-            toks = toks[1:]
-        elif toks and toks[0] not in rend and toks[0] != "...":
-            p["hdr"] = True                   # a first line that is no data line: a header showing something else
-            p["hdr_wrong"] = toks[0]
-            toks = toks[1:]
-        p["body"] = [[(t == "..."), rend.get(t, [])] for t in toks]
-        p["toks"] = toks
-        return p
+        nm = None if case["name"] is None else V.dec(case["name"])
+        named = nm is not None and nm != ""
+
+        def build(hdr, wrong=None):
+            q = dict(p)
+            q["hdr"] = hdr
+            if wrong is not None:
+                q["hdr_wrong"] = wrong
+            body = toks[1:] if hdr else toks
+            q["body"] = [[(t == "..."), rend.get(t, [])] for t in body]
+            q["toks"] = body
+            return q
+
+        if not toks:
+            return build(False)
+        is_data = toks[0] in rend or toks[0] == "..."
+        is_name = case["name"] is not None and toks[0] in _nameset(case["name"])
+        if is_name and is_data:            # e.g. named '...' over object cells '...': both readings are kept
+            a, b = build(True), build(False)
+            main, alt = (a, b) if named else (b, a)
+            main["alt"] = alt
+            return main
+        if is_name:
+            return build(True)
+        if is_data:
+            return build(False)
+        return build(True, toks[0])        # a first line that is no data line: a header showing something else
     # ---- table
     if s == "# 0\u00d70 table":
         return {"form": "empty"}
@@ -477,38 +542,69 @@ def _parse(case, obs):
     def is_body(r):
         return all(x in rend or x == "..." for x in r)
 
-    k = 0
-    p["disp"] = None
-    p["types"] = None
-    if k < len(rows) and not is_types(rows[k]) and not is_dot(rows[k]) and not is_body(rows[k]):
-        p["disp"] = [[x == "...", [j for j, ns in enumerate(namesets) if x in ns]] for x in rows[k]]
-        p["disp_toks"] = rows[k]
-        k += 1
-    if k < len(rows) and is_dot(rows[k]):
-        k += 1
-    if k < len(rows) and is_types(rows[k]):
-        tr = []
-        for x in rows[k]:
-            tr.append(None if x == "..." else _parse_tok(x[1:-1]))
-        p["types"] = tr
-        k += 1
-    body = rows[k:]
-    width = len(body[0]) if body else 0
-    if any(len(r) != width for r in body):
-        return {"bad": "body lines have different numbers of cells"}
-    p["body"] = [[[r[c] == "...", rend.get(r[c], [])] for r in body] for c in range(width)]
-    p["body_toks"] = [[r[c] for r in body] for c in range(width)]
-    p["nbody"] = len(body)
-    return p
+    def build(first_is_names):
+        q = dict(p)
+        k = 0
+        q["disp"] = None
+        q["types"] = None
+        if first_is_names:
+            q["disp"] = [[x == "...", [j for j, ns in enumerate(namesets) if x in ns]] for x in rows[0]]
+            q["disp_toks"] = rows[0]
+            k = 1
+        if k < len(rows) and is_dot(rows[k]):
+            k += 1
+        if k < len(rows) and is_types(rows[k]):
+            tr = []
+            for x in rows[k]:
+                tr.append(None if x == "..." else _parse_tok(x[1:-1]))
+            q["types"] = tr
+            k += 1
+        body = rows[k:]
+        width = len(body[0]) if body else 0
+        if any(len(r) != width for r in body):
+            return {"bad": "body lines have different numbers of cells"}
+        q["body"] = [[[r[c] == "...", rend.get(r[c], [])] for r in body] for c in range(width)]
+        q["body_toks"] = [[r[c] for r in body] for c in range(width)]
+        q["nbody"] = len(body)
+        return q
+
+    if not rows or is_types(rows[0]) or is_dot(rows[0]):
+        return build(False)
+    if not is_body(rows[0]):
+        return build(True)
+    if all(x == "..." or any(x in ns for ns in namesets) for x in rows[0]):
+        # every cell of the first line is both a data text and a name text (columns NAMED '...' over object
+        # cells '...'; the bare "..." of a marker): keep both readings, the likelier one first
+        ncols = len(case["cols"])
+        shown = list(range(ncols)) if ncols <= 2 * MAX_HEAD_COLS else \
+            list(range(MAX_HEAD_COLS)) + list(range(ncols - MAX_HEAD_COLS, ncols))
+        texts = [None if nm is None else V.dec(nm) for nm, _ in case["cols"]]
+        expect_names = any(texts[j] is not None and str(texts[j]) != "" for j in shown)
+        a, b = build(True), build(False)
+        main, alt = (a, b) if expect_names else (b, a)
+        if "bad" in main:
+            return alt
+        if "bad" not in alt:
+            main["alt"] = alt
+        return main
+    return build(False)
 
 
 # ------------------------------------------------------------------ Coq emitter
+
+def _beyond_float(v):
+    try:
+        float(v)
+        return False
+    except OverflowError:
+        return True
+
 
 def _shape(tag):
     if tag[0] == "N":
         return "None"
     if tag[0] == "V":
-        return "(Some VVector)"
+        return f"(Some (VVector {cbool(len(tag[1]) > 0)}))"     # its .shape is (len,), or () when empty
     v = V.dec(tag)
     if isinstance(v, float):
         if math.isnan(v):
@@ -521,7 +617,7 @@ def _shape(tag):
             c = f"(FFinite {cbool(v == int(v))})"
         return f"(Some (VFloat {c}))"
     if isinstance(v, int):
-        return "(Some VIntLike)"
+        return f"(Some (VIntLike {cbool(_beyond_float(v))}))"
     if isinstance(v, _dt.date):
         return "(Some VDateLike)"
     if isinstance(v, str):
@@ -548,9 +644,23 @@ def _vec_term(nm, schema, tags):
     return f"(mkVec {_nobj(nm)} {_odt(schema)} {clist(_shape(t) for t in tags)})"
 
 
-def _oitem(it):
+def _oitem(it, col=None):
+    """col: the table column this body position shows under the column budget (the only one the checker
+    compares the token with); without it the candidate list is cut at 200"""
     e, cands = it
+    if col is not None:
+        cands = [c for c in cands if c[0] == col]
     return f"OI {cbool(e)} {clist(f'({cnat(j)}, {cnat(i)}, {f})' for j, i, f in cands[:200])}"
+
+
+def _body_cols(ncols, width):
+    """the table column shown at each body position (None: the column of hidden columns), when the body has
+    the width the column budget gives; else no hint"""
+    if ncols > 2 * MAX_HEAD_COLS:
+        js = list(range(MAX_HEAD_COLS)) + [-1] + list(range(ncols - MAX_HEAD_COLS, ncols))
+    else:
+        js = list(range(ncols))
+    return js if len(js) == width else [None] * width
 
 
 def _glob_z(case):
@@ -568,7 +678,7 @@ def emit(case, obs):
         if "exc" in obs:
             o = "OVExn"
         else:
-            p = parse(case, obs)
+            p = reading(case, obs)
             if "bad" in p:
                 o = "OVBad"
             elif p["form"] == "empty":
@@ -578,6 +688,8 @@ def emit(case, obs):
                 body = f"(Some {clist(_oitem(x) for x in p['body'])})" if full else "None"
                 o = f"(OVLines {hdr} {body} {cnat(min(p['count'], 4999))} {V.coq_dtype(p['dt'])})"
         return f"CVec {_glob_z(case)} {v} {o}"
+    if obs.get("tensor_cols"):
+        return "CSkip"
     cols = clist(_vec_term(nm, sc, tags) for (nm, tags), sc in zip(case["cols"], obs["schema"]))
     ov = case["override"]
     rr = "None" if ov == "keep" or ov[1] is None else f"(Some {cz(ov[1])})"
@@ -585,7 +697,7 @@ def emit(case, obs):
     if "exc" in obs:
         o = "OTExn"
     else:
-        p = parse(case, obs)
+        p = reading(case, obs)
         if "bad" in p:
             o = "OTBad"
         elif p["form"] == "empty":
@@ -603,8 +715,9 @@ def emit(case, obs):
                 disp = "None" if p["disp"] is None else \
                     "(Some " + clist(f"OH {cbool(e)} {clist(cnat(j) for j in js)}" for e, js in p["disp"]) + ")"
                 types = "None" if p["types"] is None else "(Some " + clist(_odt(x) for x in p["types"]) + ")"
+                js = _body_cols(len(case["cols"]), len(p["body"]))
                 body = "None" if p["nbody"] == 0 else \
-                    "(Some " + clist(clist(_oitem(x) for x in colb) for colb in p["body"]) + ")"
+                    "(Some " + clist(clist(_oitem(x, j) for x in colb) for colb, j in zip(p["body"], js)) + ")"
                 parts = f"(Some {disp}) (Some {types}) {body}"
             else:
                 parts = "None None None"
@@ -667,7 +780,14 @@ def oracle(case, obs):
         return f"impure: repr changed the object ({obs.get('impure')})"
     if not obs["same"]:
         return "impure: two consecutive repr() calls gave different strings"
-    p = parse(case, obs)
+    if obs.get("tensor_cols"):
+        return None                       # a table of tables: totality and purity only
+    return _judge(case, obs, reading(case, obs))
+
+
+def _judge(case, obs, p):
+    """the property, stated on one reading of the repr string"""
+    is_tbl = case["k"] == "tbl"
     if "bad" in p:
         return f"footer: unrecognisable repr ({p['bad']})"
     full = case["mode"] == "full"
@@ -849,15 +969,14 @@ def neighbours(case, rng):
 
 
 def known(case, obs, why):
-    """NEW-C20-1: an element that is itself a serif Vector makes `v == '...'` elementwise, and the
-    truth value of the resulting Vector raises."""
-    if why.startswith("raises") and "boolean context" in obs.get("msg", ""):
-        tags = case["vals"] if case["k"] == "vec" else [t for _, vs in case["cols"] for t in vs]
-        if _has_nested(tags):
-            return "NEW-C20-1"
-    # NEW-C20-2: the row of names is left out when '...' is the only name text among the shown columns
-    if why.startswith("headers: no row of names") and case["k"] == "tbl":
-        texts = {None if nm is None or V.dec(nm) is None else str(V.dec(nm)) for nm, _ in case["cols"]}
-        if "..." in texts and texts <= {"...", "", None}:
-            return "NEW-C20-2"
+    """NEW-C20-3: a float column holding an int beyond the float range: f"{v:.1f}" converts the int with
+    float(v), which raises OverflowError."""
+    if why.startswith("raises") and "OverflowError" in obs.get("msg", "") and "too large to convert to float" in obs["msg"]:
+        if case["k"] == "vec":
+            cols = [(obs.get("schema"), case["vals"])]
+        else:
+            cols = list(zip(obs.get("schema") or [], [vs for _, vs in case["cols"]]))
+        for sc, tags in cols:
+            if sc and sc[0] == "KFloat" and any(t[0] == "i" and _beyond_float(t[1]) for t in tags):
+                return "NEW-C20-3"
     return None
